@@ -93,6 +93,7 @@ def handle (prop : String) (line : String) : String :=
       | "pushbits" => opPushBits args res
       | "threads" => opThreads args res
       | "wasmqr" => opWasmQr args res
+      | "xref" => opXref args res
       | "uline" => opULine args res
       | "usq" => opUSq args res
       | "ustructure" => opUStructure args res
